@@ -17,8 +17,8 @@ Definition xop_ok (c : cfg) (s : prog) (o : xop) : Prop :=
   | XBase (OStore lb) => store_ok lb
   | XBase b => op_ok b
   | XRenum n st sp => 0 <= dflt n 10 /\ 0 <= dflt st 0 <= 65535
-  | XSaveLoad => cs c + zlen (code s) + 1 <= limit c          (* LOAD has no memory check of its own *)
-  | XMerge lbs => Forall store_ok lbs
+  | XSaveLoad => True
+  | XMerge lbs | XLoadAscii lbs => Forall store_ok lbs
   end.
 
 Lemma abs_ok_set_last c s ls tail l : abs_ok c s ls tail -> abs_ok c (set_last s l) ls tail.
@@ -98,6 +98,10 @@ Lemma load_ok c s ls tail : cfg_ok c -> abs_ok c s ls tail -> cs c + zlen (code 
   abs_ok c (fst (xstep c s XSaveLoad)) ls (tail ++ [26]).
 Proof.
   intros Hc Ha Hfit. cbn [xstep].
+  assert (Hz : zlen (tl (code s) ++ [26]) = zlen (code s)).
+  { rewrite (a_code _ _ _ _ Ha). unfold image. rewrite (img_cons (cs c) 0 ls tail). cbn [tl].
+    rewrite zlen_app, !zlen_cons. change (zlen (@nil Z)) with 0. lia. }
+  destruct (cs c + 1 + zlen (tl (code s) ++ [26]) >? limit c) eqn:Eo; [rewrite Z.gtb_ltb in Eo; lia|]. clear Hz Eo.
   pose proof Ha as [Hs Hnn Hb Hcode Hnd Hlines Hfit0].
   set (s0 := {| code := image (cs c) ls (tail ++ [26]); lines := index ls; last_stored := 0 |}).
   assert (Hlen : zlen (code s) = size ls + 3 + zlen tail).
@@ -130,10 +134,19 @@ Proof.
   rewrite Hr. cbn [fst]. exact Habs'.
 Qed.
 
+Lemma erase_inv c : cfg_ok c -> inv c erase.
+Proof. intros Hc. exists [], []. split; [apply erase_ok; exact Hc | split; [constructor | exact I]]. Qed.
+
 Lemma load_inv c s : cfg_ok c -> inv c s -> xop_ok c s XSaveLoad -> inv c (fst (xstep c s XSaveLoad)).
 Proof.
-  intros Hc [ls [tail [Ha [Hn Ht]]]] Hfit. exists ls, (tail ++ [26]).
-  split; [apply load_ok; assumption|]. split; [exact Hn|]. apply tail_ok_snoc; [exact Ht | reflexivity].
+  intros Hc [ls [tail [Ha [Hn Ht]]]] _.
+  assert (Hz : zlen (tl (code s) ++ [26]) = zlen (code s)).
+  { rewrite (a_code _ _ _ _ Ha). unfold image. rewrite (img_cons (cs c) 0 ls tail). cbn [tl].
+    rewrite zlen_app, !zlen_cons. change (zlen (@nil Z)) with 0. lia. }
+  destruct (cs c + 1 + zlen (tl (code s) ++ [26]) >? limit c) eqn:Eo.
+  - cbn [xstep]. rewrite Eo. cbn [fst]. apply erase_inv. exact Hc.
+  - exists ls, (tail ++ [26]). rewrite Z.gtb_ltb in Eo.
+    split; [apply load_ok; [exact Hc | exact Ha | lia]|]. split; [exact Hn|]. apply tail_ok_snoc; [exact Ht | reflexivity].
 Qed.
 
 Lemma merge_inv c lbs : cfg_ok c -> forall s, inv c s -> Forall store_ok lbs -> inv c (fst (merge_from c s lbs)).
@@ -146,11 +159,12 @@ Qed.
 
 Lemma xstep_inv c s o : cfg_ok c -> inv c s -> xop_ok c s o -> inv c (fst (xstep c s o)).
 Proof.
-  intros Hc Hi Ho. destruct o as [b|n st sp| |lbs].
+  intros Hc Hi Ho. destruct o as [b|n st sp| |lbs|lbs].
   - cbn [xstep fst]. apply base_inv; assumption.
   - apply renum_inv; assumption.
   - apply load_inv; assumption.
   - cbn [xstep]. apply merge_inv; assumption.
+  - cbn [xstep]. apply merge_inv; [exact Hc | apply erase_inv; exact Hc | exact Ho].
 Qed.
 
 (* the side conditions along a history (they refer to the state reached so far) *)
@@ -170,5 +184,5 @@ Qed.
 Theorem xrun_inv c ops : cfg_ok c -> xhist_ok c erase ops -> inv c (xrun c ops).
 Proof.
   intros Hc Hh. apply xtrace_inv; [exact Hc | | exact Hh].
-  exists [], []. split; [apply erase_ok; exact Hc | split; [constructor | exact I]].
+  apply erase_inv. exact Hc.
 Qed.
